@@ -993,6 +993,9 @@ func (g *gen) genTx(bi int) {
 		}
 		ref := g.accepted[r.Intn(len(g.accepted))]
 		s.ReplayBlock, s.ReplayTx = ref[0], ref[1]
+		if r.Chance(0.4) {
+			s.Mut = []string{"fee", "memo", "entropy", "msg"}[r.Intn(4)]
+		}
 		g.addTx(bi, s)
 		return
 	}
@@ -1110,8 +1113,17 @@ func (g *gen) paramValue(k string) string {
 			}
 			acl = append(acl, govTypes.ACLPair{Key: key, Addr: g.kr.Get(o).Addr})
 		}
+		if r.Chance(0.3) {
+			// a hand-over done by adding a pair instead of replacing one: the key is listed twice, the first pair names the owner
+			dup := govTypes.ACLPair{Key: AllParamKeys[r.Intn(len(AllParamKeys))], Addr: g.kr.Get(g.pickAcct()).Addr}
+			at := r.Intn(len(acl) + 1)
+			acl = append(acl[:at], append(govTypes.ACL{dup}, acl[at:]...)...)
+		}
 		return ParamJSON(acl)
 	case "gov/daoOwner":
+		if r.Chance(0.2) {
+			return ParamJSON(sdk.Address{}) // the owner is revoked: nobody may move DAO funds
+		}
 		return ParamJSON(g.kr.Get(g.pickAcct()).Addr)
 	case "gov/upgrade":
 		return ParamJSON(govTypes.Upgrade{Height: 1000000 + int64(r.Intn(100)), Version: []string{"0.0.1", "0.0.0", "9.9.9"}[r.Intn(3)]})
